@@ -9,6 +9,8 @@ package contracts
 //@ spec func shassuffix(s string, t string) bool
 //@ spec func sindex(s string, t string) int
 //@ spec func slastindex(s string, t string) int
+//@ spec func sjoin(xs []string, sep string) string
+//@ spec func svalidutf8(s string) bool
 
 //@ extern func strings.Contains
 //@   pure
@@ -83,3 +85,11 @@ package contracts
 //@   requires count >= 0
 //@   modifies nothing
 //@   ensures len(result) == len(b) * count
+
+//@ extern func strings.Join
+//@   pure
+//@   ensures result == sjoin(elems, sep)
+//@ extern func unicode/utf8.ValidString
+//@   pure
+//@   ensures result <==> svalidutf8(s)
+//@   ensures len(s) == 0 ==> result
